@@ -26,6 +26,7 @@ def plan(tier, seed):
     q = tier == "quick"
     specs = shards("docs", 3000 if q else 150000, 250 if q else 4000, seed)
     specs += shards("streams", 500 if q else 20000, 50 if q else 1000, seed)
+    specs += shards("retained", 300 if q else 12000, 50 if q else 1000, seed)
     specs += shards("corpus", 1, 1, seed)
     specs += [{"family": "cli", "seed": seed, "n": 1}]
     specs += [{"family": "thresholds", "seed": seed, "n": 1, "part": k, "parts": 8, "tier": tier} for k in range(8)]
@@ -125,7 +126,28 @@ class SeqGen:
         return v
 
 
-GEN_SHAPES = [("", 1000, 1), ("id-", 0, 1), ("", 5000, -1), ("x", 7, 13), ("", 10, 10), ("0", 0, 1)]
+class ListGen(list):
+    """Another legitimate generator: it records what it hands out in itself (a list) — so it is *falsy* until the first id
+    has been drawn, and has a length.  Same numbering interface as SeqGen for the checks."""
+
+    def __init__(self, prefix="", start=0, step=1):
+        super().__init__()
+        self.prefix, self.start, self.step = prefix, start, step
+
+    @property
+    def n(self):
+        return len(self)
+
+    def value(self, i):
+        return "%s%d" % (self.prefix, self.start + self.step * i)
+
+    def get_next_id(self):
+        v = self.value(len(self))
+        self.append(v)
+        return v
+
+
+GEN_SHAPES = [("", 1000, 1), ("id-", 0, 1), ("", 5000, -1), ("x", 7, 13), ("", 10, 10), ("0", 0, 1), ("list", "rec-", 0, 1), ("list", "", 300, 1)]
 
 
 def check_custom_generator(text, shape, M, case):
@@ -135,7 +157,7 @@ def check_custom_generator(text, shape, M, case):
     from gherkin.ast_builder import AstBuilder
     from gherkin.pickles.compiler import Compiler
     from gherkin.errors import ParserError
-    g = SeqGen(*shape)
+    g = ListGen(*shape[1:]) if shape[0] == "list" else SeqGen(*shape)
     M.case(h64(["customgen", shape, text]))
     try:
         ast = Parser(AstBuilder(g)).parse(text)
@@ -272,6 +294,44 @@ def check_stream(sources, M, case):
         M.violation("G6.unique", {"what": "an id was handed out twice within one stream"}, case)
 
 
+def check_retained(sources, M, case):
+    """One id generator, one Parser and one Compiler for several documents, every result kept until the end (a caller that
+    collects documents and pickle lists): all ids ever handed out are pairwise distinct, and every pickle still refers to
+    nodes of its own document."""
+    from gherkin.parser import Parser
+    from gherkin.ast_builder import AstBuilder
+    from gherkin.pickles.compiler import Compiler
+    from gherkin.stream.id_generator import IdGenerator
+    from gherkin.errors import ParserError
+    g = IdGenerator()
+    parser, comp = Parser(AstBuilder(g)), Compiler(g)
+    kept = []
+    M.case(h64(["retained", sources]))
+    for n, text in enumerate(sources):
+        try:
+            ast = parser.parse(text)
+        except ParserError:
+            continue
+        except Exception:
+            return                  # C01's business
+        doc = dict(ast, uri="features/r%d.feature" % n)
+        try:
+            pickles = comp.compile(doc)
+        except Exception:
+            return
+        kept.append((ast, pickles))
+    M.count("retained_sequences")
+    seen = []
+    for ast, pickles in kept:
+        seen += [nd.get("id") for nd in refcompile.ref_ids(ast)]
+        seen += [p.get("id") for p in pickles] + [s.get("id") for p in pickles for s in p["steps"]]
+        check_refs(ast, pickles, M, case)
+    M.count("ids_checked", len(seen))
+    if len(set(seen)) != len(seen):
+        M.violation("G6.unique", {"what": "an id occurs twice among the documents and pickle lists a caller kept from one generator/Parser/Compiler",
+                                  "documents": len(kept)}, case)
+
+
 def run_shard(spec, M):
     fam, seed = spec["family"], spec["seed"]
     if fam == "docs":
@@ -290,6 +350,11 @@ def run_shard(spec, M):
         from .. import thresholds
         for dim, n in thresholds.cases(spec["tier"], spec["part"], spec["parts"]):
             check_document(thresholds.build(dim, n).text, M, {"kind": "text", "text": "threshold document %s n=%d" % (dim, n), "dim": dim, "n": n})
+    elif fam == "retained":
+        for i in range(spec["start"], spec["start"] + spec["n"]):
+            r = rng(seed, ID, "retained", i)
+            sources = [make_source(r) for _ in range(r.randint(2, 6))]
+            check_retained(sources, M, {"kind": "retained", "sources": sources})
     elif fam == "streams":
         for i in range(spec["start"], spec["start"] + spec["n"]):
             r = rng(seed, ID, "stream", i)
@@ -315,6 +380,8 @@ def replay(case, M):
     if case.get("dim"):
         from .. import thresholds
         check_document(thresholds.build(case["dim"], case["n"]).text, M, case)
+    elif case["kind"] == "retained":
+        check_retained(case["sources"], M, case)
     elif case["kind"] == "stream":
         check_stream(case["sources"], M, case)
     else:
